@@ -312,6 +312,15 @@ def evolve_pair(rng, **kw):
     import copy
     nenums = kw.pop('nenums', 0)
     B = gen_schema(rng, **kw)
+    # aimed: the first union always gains members in B, and the root table has a union field and a union VECTOR field of it
+    if B['unions'] and B['tables']:
+        u0 = B['unions'][0]
+        if len(u0['members']) < 2: u0['members'].append(('x', 'straim'))
+        B['tables'][0]['fields'].insert(0, {'name': 'uv_aim', 'kind': 'vec_union', 'type': u0['name'], 'required': False})
+        B['tables'][0]['fields'].insert(0, {'name': 'u_aim', 'kind': 'union', 'type': u0['name'], 'required': False})
+    # a self reference on the root table, so that chains up to and beyond the documented nesting limit can be built (deep-chain class)
+    if kw.get('ntables', 1) >= 1 and B['tables']:
+        B['tables'][0]['fields'].insert(0, {'name': 'selfref', 'kind': 'table', 'type': B['tables'][0]['name'], 'required': False})
     # enums (permitted evolution: new enum values at the end): every enum of B keeps a proper prefix in A; enum-typed fields
     # default to a member both versions have
     # the first enum always counts up from zero and keeps at least two members in A (name-table printers), the others are random
@@ -337,9 +346,10 @@ def evolve_pair(rng, **kw):
         t['fields'] = t['fields'][:keep]
     for ta, tb in zip(A['tables'], B['tables']):
         for fb in tb['fields'][len(ta['fields']):]: fb['required'] = False     # appended fields must be optional
-    for u in A['unions']:
-        k = rng.choice([0, 1, 2])
+    for ui, u in enumerate(A['unions']):
+        k = rng.choice([0, 1, 2]) if ui else rng.choice([1, 1, 2])
         u['members'] = u['members'][:max(1, len(u['members']) - k)]
+    for ua, ub in zip(A['unions'], B['unions']): ub['first_new'] = len(ua['members'])      # member codes above this are unknown to A
     # aimed evolutions: every table of B also gets appended scalar fields whose defaults need all their digits, and every
     # union of B gets an appended member of a small-alignment struct when the schema has one
     small = [n for n in B['struct_order'] if B['structs'][n]['align'] < 4]
@@ -352,7 +362,7 @@ def evolve_pair(rng, **kw):
     # B deprecates some non-required fields that A still has
     for ta, tb in zip(A['tables'], B['tables']):
         for fa, fb in zip(ta['fields'], tb['fields']):
-            if not fb['required'] and rng.random() < 0.15:
+            if not fb['required'] and fb['name'] not in ('selfref', 'uv_aim', 'u_aim') and rng.random() < 0.15:
                 fb['deprecated'] = True
     return A, B
 
